@@ -374,6 +374,7 @@ def units(tier):
     if tier != "quick":
         us.append(Reduce("argmin", 3, fmt=(4, 7)))
     us.append(ParseString(5 if tier == "quick" else 7, 60 if tier == "quick" else 600))
-    from . import C15_render
+    from . import C15_render, C15_cmpkinds
     us += C15_render.units(tier)
+    us += C15_cmpkinds.units(tier)
     return us
